@@ -405,9 +405,10 @@ class LoadScopeScheduling:
                 unused_node.shutdown()
 
         # Assign initial workload (a replacement node which is still collecting
-        # gets its share when its collection arrives)
+        # gets its share when its collection arrives; a node which is already
+        # down cannot be sent anything: its channel is closed)
         for node in self.nodes:
-            if node in self.registered_collections:
+            if node in self.registered_collections and not node.shutting_down:
                 self._assign_work_unit(node)
 
         # Ensure nodes start with at least two work units if possible (#277)
